@@ -295,10 +295,10 @@ let handle_line line =
            Buffer.add_string buf (" " ^ hex m.wm_body);
            print_endline (Buffer.contents buf))
   | "SWRX" ->
-      (* SWRX <setting|U> <latency|N> <cancel|N> : all in ns *)
+      (* SWRX <setting|U> <latency|N> <cancel|N> <caller deadline|N> : all in ns *)
       let opt t = if t = "U" || t = "N" then None else Some (z_of_dec t) in
-      let st = opt (next c) in let la = opt (next c) in let ca = opt (next c) in
-      let o = swr_predict { xp_setting = st; xp_latency = la; xp_cancel = ca } in
+      let st = opt (next c) in let la = opt (next c) in let ca = opt (next c) in let dl = opt (next c) in
+      let o = swr_predict { xp_setting = st; xp_latency = la; xp_cancel = ca; xp_deadline = dl } in
       Printf.printf "P fg_latency=%s bg_calls=%s deadline=%s bg_end=%s cancelled=%b goroutines_left=%s\n"
         (dec_of_z o.so_fg_latency) (dec_of_z o.so_bg_calls) (dec_of_z o.so_deadline) (dec_of_z o.so_request_end)
         o.so_cancelled (dec_of_z o.so_goroutines_left)
